@@ -388,11 +388,13 @@ def _nf(tree):
     return tree
 
 
-def normalize(tree, relpath):
+def normalize(tree, relpath, digest=None):
     tree = _nf(tree)
     R = reference()
     ref = R.get("functions", {}).get(relpath)
     renamed, notes = {}, {}
+    if ref and digest is not None and R.get("digests", {}).get(relpath) == digest:
+        ref = None      # the module is byte-identical to the reference tree: nothing to inline, substitute or align
     if ref:
         from . import inline
         known = R.get("_names")
@@ -431,6 +433,7 @@ def normalize(tree, relpath):
 def build_reference(root):
     """reference table from the tree under root (run by tools/gen_reference.py)"""
     out = {}
+    digests = {}
     for dp, dns, fns in os.walk(os.path.join(root, "ioflo")):
         dns[:] = [d for d in dns if d != "__pycache__"]
         for f in sorted(fns):
@@ -451,4 +454,6 @@ def build_reference(root):
                 sig = signatures(fn, info)
                 ent[qual] = {"params": info[0], "locals": [[x, list(sig[x])] for x in info[1]]}
             out[rel] = ent
-    return {"functions": out}
+            import hashlib
+            digests[rel] = hashlib.sha256(open(full, encoding="utf8", errors="replace").read().encode("utf8", "replace")).hexdigest()
+    return {"functions": out, "digests": digests}
